@@ -159,10 +159,25 @@ class ObsSpec(FnSpec):
 
     def on_with(self, ex, cv, node, entering):
         if isinstance(cv, VOpaque) and cv.kind == "lock":
+            reg = cv.data == "observer._lock" and getattr(self, "me", None) is not None
             if entering:
+                if reg and cv.data not in ex.held:
+                    self.sections = getattr(self, "sections", 0) + 1
+                    if self.sections > 1:
+                        # rely: while this thread did not hold the lock other API calls ran - the registry is arbitrary
+                        # within the class invariant; facts read in an earlier section do not survive
+                        W = self.W
+                        for f, ty in (("_watches", TSet(W.Watch)), ("_handlers", W.TH), ("_emitters", TSet(W.Emitter)), ("_emitter_for_watch", W.TE)):
+                            ex.heap[(self.me.id, f)] = ex.fresh(ty, f)
+                        for nm, fml in W.inv(W.view(ex, self.me)):
+                            ex.assume(fml)
                 ex.held.append(cv.data)
             else:
                 ex.held.remove(cv.data)
+                if reg and cv.data not in ex.held:
+                    # guarantee: every critical section leaves the class invariant intact (what the other threads rely on)
+                    for nm, fml in self.W.inv(self.W.view(ex, self.me)):
+                        ex.oblige(f"release[I:{nm}]", fml, kind="lock-invariant")
             return
         raise Unsupported(f"with {cv!r}")
 
@@ -173,6 +188,7 @@ class ObsSpec(FnSpec):
     def start_state(self, ex):
         W = self.W
         self.me = W.new_observer(ex)
+        self.sections = 1 if self.needs_lock_on_entry else 0
         self.pre = W.view(ex, self.me)
         self.pre_ghost = {g: ex.ghost[g].t for g in ("started", "stopped", "joined")}
         for nm, f in W.inv(self.pre):
